@@ -174,6 +174,8 @@ def run(ctx):
                           fi.loc(c))
         if not found:
             ck.bad('C11-D3', q, 'call of %s' % '/'.join(names), 'expected URL parse/join call not found in %s' % q, fi.loc())
+    from .common import redirect_target_guarded_rule
+    redirect_target_guarded_rule(ctx, 'C11-D3')
     # scraped links reach the table only through the non-raising variant
     for q in ('wpull.pipeline.session:ItemSession.add_child_url', 'wpull.pipeline.session:ItemSession.add_url'):
         if repo.has_func(q):
